@@ -1283,7 +1283,7 @@ fn gen_op(r: &mut Rng, w: &mut World, import_ids: &HashMap<usize, u32>) -> Op {
                                 sites.extend(ss);
                             }
                     }
-                    return Op::Inj { h, sites, at: r.below(2) };
+                    return Op::Inj { h, sites, at: r.below(3) };
                 }
             }
             6 => {
@@ -1447,6 +1447,11 @@ fn apply<'a>(m: &mut Module<'a>, op: &Op, w: &World) -> Ret {
             let idx = if *at == 0 { 2.min(n - 1) } else { n - 1 };
             fm.before_at(Location::Module { func_idx: fid, instr_idx: idx });
             inject_sites(&mut fm, sites, w);
+            if *at == 2 {
+                // the final `end` also carries after-code (which the encoder drops): the before-list must still be rewritten
+                fm.after_at(Location::Module { func_idx: fid, instr_idx: idx });
+                fm.inject(Operator::Nop);
+            }
             Ret::Unit
         }
         Op::Ag { uid, gk, site } => {
